@@ -196,6 +196,15 @@ fn known_class(m1: &mut Beatmap, text: &str, class: &str, msg: &str) -> Option<&
         if over {
             return Some("natural-length-slider-longer-than-the-parse-limit");
         }
+        // a spinner / hold ending exactly at the limit: the encoder writes start + duration, which can round above it
+        let end_over = m1.hit_objects.iter().any(|h| match &h.kind {
+            HitObjectKind::Spinner(s) => h.start_time + s.duration > 2_147_483_647.0,
+            HitObjectKind::Hold(s) => h.start_time + s.duration > 2_147_483_647.0,
+            _ => false,
+        });
+        if end_over {
+            return Some("end-time-beyond-the-parse-limit");
+        }
     }
     // scroll speed exists only in taiko / mania and is decided when a timing line is parsed: a `Mode` record that
     // follows a timing line comes too late for it (the encoder writes [General] first, so the second decode differs)
@@ -371,8 +380,13 @@ pub fn check_c04(input: &[u8], acc: &mut Acc) {
                 });
             let late_point = sec == "TimingPoints"
                 && l.split(',').next().and_then(|x| x.parse::<f64>().ok()).is_some_and(|t| t.abs() > 2_147_483_647.0);
+            let end_over = sec == "HitObjects"
+                && l.split(',').nth(3).and_then(|t| t.trim().parse::<i32>().ok()).is_some_and(|t| t & 3 == 0 && t & (8 | 128) != 0)
+                && l.split(',').nth(5).and_then(|x| x.split(':').next()).and_then(|x| x.parse::<f64>().ok()).is_some_and(|e| e > 2_147_483_647.0 && e < 2_147_483_648.0);
             let class = if over {
                 "natural-length-slider-longer-than-the-parse-limit"
+            } else if end_over {
+                "end-time-beyond-the-parse-limit"
             } else if late_point {
                 "control-point-time-beyond-the-parse-limit"
             } else {
@@ -394,7 +408,11 @@ pub fn check_c04(input: &[u8], acc: &mut Acc) {
         viol("walker-disagrees-with-decoder", "feeding the emitted lines to the section parsers gives a different map than decoding the text".into(), acc);
     }
     let rejected_hit = hit_lines.len() != again.hit_objects.len();
-    if rejected_hit && !acc.viols.contains_key("emitted-line-rejected") && !acc.viols.contains_key("natural-length-slider-longer-than-the-parse-limit") {
+    if rejected_hit
+        && !acc.viols.contains_key("emitted-line-rejected")
+        && !acc.viols.contains_key("natural-length-slider-longer-than-the-parse-limit")
+        && !acc.viols.contains_key("end-time-beyond-the-parse-limit")
+    {
         viol("hit-object-dropped", format!("{} hit-object lines emitted, {} objects read back", hit_lines.len(), again.hit_objects.len()), acc);
     }
     if !rejected_hit {
